@@ -105,6 +105,18 @@ class AStream(object):
         return '<stream %s>' % self.name
 
 
+class AIter(object):
+    """An iterator over a definite sequence of abstract values (iter() of a known tuple/list/section)."""
+
+    def __init__(self, items):
+        self.id = next(_ids)
+        self.items = list(items)
+        self.pos = 0
+
+    def __repr__(self):
+        return '<iter %d/%d>' % (self.pos, len(self.items))
+
+
 class BoundMethod(object):
     def __init__(self, obj, fi, cls=None):
         self.obj = obj
